@@ -335,6 +335,9 @@ func (ci *crdIpam) Shutdown() {
 // #lizard forgives
 func (ci *crdIpam) ConfigurePool(floatIPs []*FloatingIPPool) error {
 	sort.Sort(FloatingIPSlice(floatIPs))
+	// list floatingips with the lock held, otherwise an ip allocated after listing and before locking is lost in cache
+	ci.cacheLock.Lock()
+	defer ci.cacheLock.Unlock()
 	ips, err := ci.listFloatingIPs()
 	if err != nil {
 		glog.Errorf("fail to list floatIP %v", err)
@@ -372,8 +375,6 @@ func (ci *crdIpam) ConfigurePool(floatIPs []*FloatingIPPool) error {
 			deletingIPs = append(deletingIPs, ip.Name)
 		}
 	}
-	ci.cacheLock.Lock()
-	defer ci.cacheLock.Unlock()
 	ci.FloatingIPs = floatIPs
 	ci.allocatedFIPs = tmpCacheAllocated
 	if len(deletingIPs) > 0 {
